@@ -20,6 +20,10 @@ import (
 type Env struct {
 	C    px.Context
 	objs map[string]px.Type
+	// aliases declared while ONE argument is built, by the text of the (alias T) term: the same term inside one argument
+	// is the same alias OBJECT (the recursion guard of aliases is keyed by identity, so only a shared alias ever meets
+	// its own earlier comparison); arguments share nothing with each other
+	memo map[string]px.Type
 }
 
 const envKey = "verif.lat.env"
@@ -100,6 +104,7 @@ func (env *Env) BuildCtor(t Ty) (r px.Type, err error) {
 			r, err = nil, fmt.Errorf("unbuildable %s: %v", t.K, e)
 		}
 	}()
+	env.memo = map[string]px.Type{}
 	return env.ctor(t, false), nil
 }
 
@@ -111,6 +116,7 @@ func (env *Env) BuildParse(t Ty) (r px.Type, err error) {
 			r, err = nil, fmt.Errorf("unparsable %s: %v", t.K, e)
 		}
 	}()
+	env.memo = map[string]px.Type{}
 	return env.reparse(env.ctor(t, true)), nil
 }
 
@@ -238,6 +244,9 @@ func (env *Env) ctor(t Ty, parsed bool) px.Type {
 		}
 		panic("undeclared object type " + ObjName(t.Path))
 	case "alias":
+		if a, ok := env.memo[t.String()]; ok {
+			return a
+		}
 		name := freshAliasName()
 		inner := env.ctor(t.Ts[0], parsed)
 		var a px.Type
@@ -247,6 +256,9 @@ func (env *Env) ctor(t Ty, parsed bool) px.Type {
 			a = types.NewTypeAliasType(name, nil, inner)
 		}
 		px.AddTypes(env.C, a)
+		if env.memo != nil {
+			env.memo[t.String()] = a
+		}
 		return a
 	}
 	panic("bad type term kind " + t.K)
